@@ -45,7 +45,7 @@ ASSUMPTIONS = [
 MUST_REACH = {"polls": 3000, "replays_served": 50, "responses_lost": 100, "events_swallowed": 100, "emptied_responses": 20,
               "injected_delivered": 100, "regions_announced": 30, "teardowns": 20, "states": 100, "histories_judged": 200, "announcing_events_covered": 4, "responses_whose_handling_failed": 30,
               "steps_on_other_conversations": 300, "events_injected_as_messages": 100,
-              "responses_with_two_identical_events": 50, "events_injected_from_a_reused_message_object": 20, "responses_with_equal_events_apart": 50, "responses_with_look_alike_events": 20, "clock_advances": 50}
+              "responses_with_two_identical_events": 50, "events_waiting_for_one_response": 2000, "events_injected_from_a_reused_message_object": 20, "responses_with_equal_events_apart": 50, "responses_with_look_alike_events": 20, "clock_advances": 50}
 
 KINDS = ["1", "2", "A", "5"]
 ACTIONS = []
@@ -569,6 +569,27 @@ def run(ctx):
     ctx.flag("exhaustive", True)
     ctx.flag("dfs_depth", depth)
     ctx.sample({"dfs_first_actions": firsts, "depth": depth, "states": n, "alphabet": ACTIONS})
+    if ctx.shard in (0, 1):
+        # an addon that injects a lot while the viewer is slow to poll: well over a thousand events waiting for one response
+        # (injected both ways), then polls - each delivered once, in order
+        n_burst = [1001, 1300][ctx.shard] if ctx.quick else [2500, 1001][ctx.shard]
+        w = World(ctx)
+        try:
+            w.step("P1")
+            for _ in range(n_burst):
+                w.inject()
+                if not w.ok:
+                    break
+            w.path.append(f"I x {n_burst}")
+            ctx.count("events_waiting_for_one_response", n_burst)
+            if w.ok:
+                w.step("P1")
+            if w.ok:
+                w.finish()
+            ctx.ev()
+            ctx.nontrivial(("burst", n_burst))
+        finally:
+            w.close()
     rng = ctx.rng
     for k in range(ctx.pick(20, 800)):
         if ctx.out_of_time():
